@@ -537,7 +537,12 @@ def entry_case(h, rec, pids):
     if rec["out"][0] != "ok":
         # members / recipients after the one at which the call failed were never looked at
         n = max(1, min(n, len(groups)))
-    if rec["out"][0] == "ok":
+    consistent = len(groups) >= n and all(g["guess"] is not None and g["guess"]["res"][0] == "ok" and g["last"]["res"][0] == "ok"
+                                          for g in groups[:n])
+    if rec["out"][0] == "ok" and not consistent:
+        # the call succeeded although a logged selection failed / was skipped: never matches the model
+        impl = "(Err EOracleMiss)"
+    elif rec["out"][0] == "ok":
         items = []
         for i in range(n):
             g = groups[i]
@@ -684,7 +689,7 @@ def gen_kid(rng, thumb):
     return rng.choice(STR_KIDS) + rng.choice(["", "", "-%d" % rng.randrange(100)])
 
 
-def gen_set(h, need_types, n=None, subs=None, dup_ok=True):
+def gen_set(h, need_types, n=None, subs=None, dup_ok=True, must=None, exclude=()):
     """key specs for a set; need_types: key types of which at least one key should be present (mostly)"""
     rng = h.rng
     n = n or rng.choice([1, 1, 2, 2, 3, 3, 4, 5, 6, 7, 8])
@@ -694,9 +699,10 @@ def gen_set(h, need_types, n=None, subs=None, dup_ok=True):
     def ok(i):
         p = h.pool[i]
         return subs is None or p["kty"] not in subs or p["sub"] in subs[p["kty"]]
-    idxs = [i for i in idxs if ok(i)]
-    chosen = []
-    if need_types and rng.random() < 0.93:
+    idxs = [i for i in idxs if ok(i) and i not in exclude]
+    chosen = list(must or [])
+    n = max(n, len(chosen))
+    if not chosen and need_types and rng.random() < 0.93:
         cands = [i for i in idxs if h.pool[i]["kty"] in need_types]
         if cands:
             chosen.append(cands[0])
@@ -853,14 +859,25 @@ def gen_jwe_produce(h, onepu=False):
         alg, enc = rng.choice([("ECDH-1PU", "A128GCM"), ("ECDH-1PU", "A256CBC-HS512"), ("ECDH-1PU+A128KW", "A128CBC-HS256")])
         subs = {"EC": [crv], "OKP": [crv]} if rng.random() < 0.85 else {"OKP": ["X25519"]}
         types = ["EC", "OKP"]
-        specs = gen_set(h, [kty], subs=subs)
-        sk = gen_set(h, [kty], n=rng.choice([1, 2, 3, 4]), subs=subs, dup_ok=False)
+        same = [i for i, p in enumerate(h.pool) if p["sub"] == crv]
+        rng.shuffle(same)
+        n_s = min(rng.choice([1, 2, 2, 3]), len(same) - 1)
+        s_idx, r_idx = same[:n_s], same[n_s:]
+        specs = gen_set(h, [kty], subs=subs, must=r_idx[:rng.choice([1, 1, 2])], exclude=s_idx)
         used = {s[0] for s in specs}
-        sk = [s for s in sk if s[0] not in used and h.pool[s[0]]["kty"] in types] or \
-             [[i, None] for i in range(len(h.pool)) if h.pool[i]["sub"] == crv and i not in used][:1]
-        if not sk:
-            return None
-        sender = {"keys": sk, "src": "set" if rng.random() < 0.85 else "key", "src_i": 0}
+        extra = [i for i in range(len(h.pool)) if i not in used and i not in s_idx and
+                 (h.pool[i]["kty"] == "oct" or rng.random() < 0.15) and h.pool[i]["kty"] != "RSA"]
+        s_all = s_idx + (rng.sample(extra, 1) if extra and rng.random() < 0.5 else [])
+        rng.shuffle(s_all)
+        sk, seen = [], set()
+        for i in s_all:
+            kid = gen_kid(rng, h.pool[i]["thumb"])
+            if (kid if kid is not None else h.pool[i]["thumb"]) in seen:
+                kid = "s~%d" % i
+            seen.add(kid if kid is not None else h.pool[i]["thumb"])
+            sk.append([i, kid])
+        sender = {"keys": sk, "src": "set" if rng.random() < 0.85 else "key",
+                  "src_i": [j for j, x in enumerate(sk) if x[0] in s_idx][0]}
     else:
         kty = rng.choice(["oct", "oct", "oct", "EC", "EC", "OKP", "RSA"])
         alg, enc, subs = jwe_alg_for(h, kty, rng)
@@ -879,7 +896,7 @@ def gen_jwe_produce(h, onepu=False):
             return False, None
         r = rng.random()
         if r < 0.7:
-            return True, eff_kid(h, rng.choice(sender["keys"]))
+            return True, eff_kid(h, rng.choice([x for x in sender["keys"] if h.pool[x[0]]["sub"] == crv] or sender["keys"]))
         if r < 0.9:
             return True, "no-such-sender"
         return True, rng.choice(["", 0, ["x"]])
@@ -1119,7 +1136,7 @@ def keyset_level(ctx, h, add, report, spec, kset):
     keys = kset.keys
     ckeys = h.c_keys(keys)
     pids = pool_ids(spec)
-    kids = [rng.choice(keys).kid, None, rng.choice(["nope", "", keys[0].kid + "x", keys[-1].kid[:-1]]),
+    kids = [rng.choice(keys).kid, None, rng.choice(["nope", "", (keys[0].kid or "") + "x", (keys[-1].kid or "z")[:-1]]),
             copy.deepcopy(rng.choice(NONSTR_KIDS))]
     for kid in kids:
         r = call(kset.get_by_kid, kid) if kid is not None or rng.random() < 0.5 else call(kset.get_by_kid)
